@@ -76,7 +76,7 @@ where
         parent2: &P::Encoding,
         rng: &mut Random,
     ) -> OptionalPair<P::Encoding> {
-        if rng.gen::<f64>() <= self.pc {
+        if rng.gen::<f64>() < self.pc {
             let dim = min(parent1.len(), parent2.len());
             let indices = (0..dim).choose_multiple(rng, self.n);
             let children = f::multi_point_crossover(parent1, parent2, &indices);
@@ -151,7 +151,7 @@ where
         parent2: &P::Encoding,
         rng: &mut Random,
     ) -> OptionalPair<P::Encoding> {
-        if rng.gen::<f64>() <= self.pc {
+        if rng.gen::<f64>() < self.pc {
             let dim = min(parent1.len(), parent2.len());
             let mask: Vec<_> = rng
                 .sample_iter(Bernoulli::new(0.5).unwrap())
@@ -225,7 +225,7 @@ where
         parent2: &P::Encoding,
         rng: &mut Random,
     ) -> OptionalPair<P::Encoding> {
-        if rng.gen::<f64>() <= self.pc {
+        if rng.gen::<f64>() < self.pc {
             let dim = min(parent1.len(), parent2.len());
             let alphas: Vec<_> = rng
                 .sample_iter(Uniform::from(0.0..=1.0))
@@ -302,7 +302,7 @@ where
         parent2: &P::Encoding,
         rng: &mut Random,
     ) -> OptionalPair<P::Encoding> {
-        if rng.gen::<f64>() <= self.pc {
+        if rng.gen::<f64>() < self.pc {
             let children = f::cycle_crossover(parent1, parent2);
             OptionalPair::from_pair(children, self.insert_both)
         } else {
